@@ -25,8 +25,17 @@ PLAN = dict(
          "runsN = argument tuples on which the source run is defined and compared",
     explanation="theorems: literal synthesis for every 64-bit value; instruction selection (5 operators incl. rem with scratch-register "
                 "evacuation, mov, literals, comparisons with the NZCV flags and the six conditional branches, label/jump/tag dispatch) for all "
-                "placements, aliasing and contents; constants tie; whole-program preservation is stated (C07_codegen_correct_statement) and "
-                "checked by executing the implementation's output on the ISA model against the AxCut machine",
+                "placements, aliasing and contents; constants tie; FORWARD SIMULATION of the generic code generator instantiated at AArch64 "
+                "(port of the x86-64 development): state relation (second temporary X(2i+5) - X30 for the 13th variable - or spill slot; "
+                "sp = 0 mod 16), per-statement theorems for every context shape (C07_sim_literal/op/op_undefined/ifc/substitute/print/call/"
+                "exit/prologue_epilogue/create/invoke, reusing the selection lemmas and the C11/C13 AArch64 theorems on parallel moves, "
+                "reference counts, the print call and entry/exit), composition C07_sim_exec(_cf), image layout from asm_wf, and two "
+                "whole-program theorems C07_codegen_simulates_int / C07_codegen_simulates_cf (integers; integers + closures without "
+                "captured variables): every terminating run of the linear machine is reproduced by the ISA run of the emitted code, for "
+                "64-bit literals and arguments; examples with >13 live variables, MOVK/MOVN literals, X30 saved around BL, X10 evacuation, "
+                "jump tables through registers and spill slots are evaluated on both machines. Heap statements (Let/Switch/closures with "
+                "captured variables) are covered by the correspondence + execution of the implementation's output on the ISA model "
+                "against the AxCut machine on every run",
     assumptions=["Sem/A64Sem.v is the meaning of the emitted instructions (follows the Arm ARM; cannot be run on hardware in this sandbox; "
                  "validated against the AxCut machine on every run)",
                  "Sem/AxSem.v run_linear is the meaning of linear AxCut",
